@@ -40,7 +40,7 @@ func main() {
 		Extra: extra,
 		ID: "C15", Level: "fault_enumeration", Prof: "c15", Judge: judge,
 		Quick: 320, Thorough: 4000, PerChild: 20,
-		Rule: "seeded failure scripts for the real tq.TransferQueue (as C06) with lfs.transfer.maxretries in {1,2,3,8}, maxretrydelay in {0,1,default}, adapter outcomes retriable/fatal/retry-later(1s), batch 429 with Retry-After, expired and soon-expiring actions, concurrency 1-8. Oracle over the fake adapter's attempt record and hook events: attempts per oid <= 1+maxretries, no attempt after a non-retriable failure or success, retry-later and 429 Retry-After lower bounds measured from a stamp taken before the answer is released, computed back-off value (logged unscaled by the hook) <= maxretrydelay, no two attempts of one oid in flight, no adapter attempt when the latest batch answer carried an already expired action, batch submissions per oid <= 1+maxretries ; theme transfer-deferred-then-batch-deferred (a transfer answered retry-later, then the re-submitting batch call answered 429 with Retry-After 2 s: both lower bounds apply); theme deferred-plus-backoff (one object deferred by Retry-After 4 s > maxretrydelay 1 s in the same round as plain retriable failures): the re-attempt of a plainly failed object begins within maxretrydelay + 1.5 s of its failure.",
-		Assume: []string{"attempt = one hand-over of the object to the transfer adapter", "upper bounds on waits are judged on the delay value computed by the code (hook tq.backoff); the single elapsed-time clause (deferred-plus-backoff) has 1.5 s of slack against a 3 s effect and a case tripping it is re-run twice, the verdict being kept only if it repeats both times", "actions expiring within 5 s are exercised but not judged"},
+		Rule: "seeded failure scripts for the real tq.TransferQueue (as C06) with lfs.transfer.maxretries in {1,2,3,8}, maxretrydelay in {0,1,default}, adapter outcomes retriable/fatal/retry-later(1s), batch 429 with Retry-After, expired and soon-expiring actions, concurrency 1-8. Oracle over the fake adapter's attempt record and hook events: attempts per oid <= 1+maxretries, no attempt after a non-retriable failure or success, retry-later and 429 Retry-After lower bounds measured from a stamp taken before the answer is released, computed back-off value (logged unscaled by the hook) <= maxretrydelay, no two attempts of one oid in flight, no adapter attempt when the latest batch answer carried an already expired action, batch submissions per oid <= 1+maxretries ; theme transfer-deferred-then-batch-deferred (a transfer answered retry-later, then the re-submitting batch call answered 429 with Retry-After 2 s: both lower bounds apply); theme deferred-plus-backoff (one object deferred by Retry-After 4 s > maxretrydelay 1 s in the same round as plain retriable failures): the re-attempt of a plainly failed object begins within maxretrydelay + 1.5 s of its failure; theme action-expires-while-queued (built-in basic adapter, fewer workers than objects, every action of the first answer advertised to live 6 s by expires_in or expires_at, first transfer held 7.5 s by the storage server): no storage request arrives after the advertised expiry of the action it names (the href carries the batch answer it came from), the object is re-requested instead.",
+		Assume: []string{"attempt = one hand-over of the object to the transfer adapter", "upper bounds on waits are judged on the delay value computed by the code (hook tq.backoff); the two elapsed-time clauses (deferred-plus-backoff: 1.5 s of slack against a 3 s effect; action-expires-while-queued: a correct client stops using an action 5 s before its expiry, the clause fires only on arrival after the expiry) are confirmed by re-running a case that trips them twice, the verdict being kept only if it repeats both times", "actions expiring within 5 s are exercised but not judged"},
 	})
 }
